@@ -312,6 +312,10 @@ func c15(c *an.Ctx) {
 		}
 	})
 
+	c.Check("R-ERR", "directive conditions are client input: parseIf answers a missing, null or non-boolean `if` with an error (rule shared with C19)", 3, func(o *an.O) {
+		ruleParseIf(c, o)
+	})
+
 	c.Check("R-SIBLING", "graphql.Flatten and federation.mergeSameAlias merge same-alias selections only after rejecting pairs that differ in field name, arguments or in having sub-selections (detectConflicts covers only the top level)", 8, func(o *an.O) {
 		ruleSameAliasAgreement(c, o)
 	})
